@@ -9,7 +9,8 @@ from harness.c06 import make_visitor
 from harness.gast import decode_module
 from harness.zoo import Cur, rd
 from safeds_stubgen.api_analyzer import API, TypeSourcePreference, TypeSourceWarning
-from safeds_stubgen.api_analyzer._types import NamedType
+from safeds_stubgen.api_analyzer._api import TypeParameter, VarianceKind
+from safeds_stubgen.api_analyzer._types import NamedType, TypeVarType
 from safeds_stubgen.docstring_parsing import PlaintextDocstringParser
 from vlib import shim
 from vlib.gapi import INT, generate, mk_api, mk_class, mk_function, mk_module, self_param
@@ -17,7 +18,7 @@ from vlib.hsupport import OutOfRange, fixed, judge, note, untraced
 
 SEL_LEN = 24
 U_IDS = ["pkg/u", "pkg/deep/u", "pkg/m2", "other/u"]
-U_CLASSES = ["Unrelated", "X", "XFoo", "Foo"]
+U_CLASSES = ["Unrelated", "X", "XFoo", "Foo", "GenericT"]
 QUALS = ["full", "partial", "bare"]
 
 
@@ -46,8 +47,14 @@ def unrelated_module(sel: List[int]) -> bool:
 
     def build(with_u: bool):
         api = mk_api()
+        def add_u():
+            if ucls == "GenericT":  # a class generic in T (an unbounded invariant type parameter)
+                mk_class(api, mk_module(api, uid), "Box", type_parameters=[TypeParameter("T", None, VarianceKind.INVARIANT)])
+            else:
+                mk_class(api, mk_module(api, uid), ucls)
+
         if with_u and first:
-            mk_class(api, mk_module(api, uid), ucls)
+            add_u()
         n = mk_module(api, "pkg/n")
         mk_class(api, n, tname)
         m = mk_module(api, "pkg/m")
@@ -56,8 +63,11 @@ def unrelated_module(sel: List[int]) -> bool:
         mk_function(api, m, "f", params=[{"name": "p", "type_": ref}], results=[("result_1", ref)])
         c = mk_class(api, m, "User", supers=[tq])
         mk_function(api, c, "g", params=[self_param()], results=[("result_1", INT)])
+        tv = TypeVarType("T", None)
+        plain = mk_class(api, m, "Plain")
+        mk_function(api, plain, "tag", params=[self_param(), {"name": "label", "type_": tv}], results=[("result_1", tv)], type_vars=[tv])
         if with_u and not first:
-            mk_class(api, mk_module(api, uid), ucls)
+            add_u()
         return api
 
     fa, _, _ = generate(build(False), convert)
@@ -66,7 +76,9 @@ def unrelated_module(sel: List[int]) -> bool:
     text_b = fb.files.get("/out/pkg/m/m.sdsstub")
     note("oracle")
     if text_a != text_b:
-        if ucls == tname:
+        if ucls == "GenericT":
+            cause = "generic-class-in-unrelated-module"
+        elif ucls == tname:
             cause = "same-class-name-in-unrelated-module"
         elif ucls.endswith(tname):
             cause = "class-name-is-suffix-of-unrelated-class-name"
